@@ -242,60 +242,79 @@ def _shrink_plan_candidates(plan, recorded, cid, op_idx):
             yield plan, rec, cid, op_idx
 
 
-def minimise(prop, v, seed, tier, ctx, ctx_file, scratch, budget=45):
+def _reproduce_many(prop, cands, v, hashseed, iot, ctx_file, scratch, workers):
+    """Run every candidate (a list of runs) in its own fresh process, in parallel. -> list of bool."""
+    jobs = [{'kind': 'callsim-replay', 'prop': prop, 'runs': runs, 'ctx_file': ctx_file, 'hashseed': hashseed,
+             'import_on_thread': iot, 'hang_dump_s': 1500} for runs in cands]
+    reps = orch.run_jobs(jobs, workers, 2400, scratch)
+    return [any(x['class'] == v['class'] for x in r['outcomes'][-1]['violations']) for r in reps]
+
+
+def small_ctx_file(ctx, runs, scratch, tag):
+    """A context file restricted to the tuples a candidate history uses (workers load it in milliseconds)."""
+    keys = {o['tuple'] for item in runs for c in item['plan']['clients'] for o in c['ops'] if o['op'] == 'call'}
+    small = dict(ctx)
+    small['pool_list'] = [t for t in ctx['pool_list'] if t['key'] in keys]
+    small['golden'] = {k: ctx['golden'][k] for k in keys if k in ctx['golden']}
+    path = os.path.join(scratch, 'ctx-min-%s.json' % tag)
+    with open(path, 'w', encoding='utf-8') as f:
+        json.dump(small, f, ensure_ascii=False)
+    return path
+
+
+def minimise(prop, v, seed, tier, ctx, ctx_file, scratch, budget=45, workers=16):
+    """Delta debugging, one round = all candidates of the current state tried in parallel (each in a fresh process);
+    the most aggressive reproducing candidate wins the round."""
     hashseed = orch.hashseed_for(seed, prop, v['batch'])
     iot = v['batch'] % 2 == 1
     tried = 0
     cur = {'plan': v['plan'], 'recorded': v['recorded']}
     cid, op_idx = v['cid'], v['op_idx']
-    ok, _ = _reproduces(prop, [cur], v, hashseed, iot, ctx_file, scratch)
-    tried += 1
     history = []
+    small = small_ctx_file(ctx, [cur], scratch, 'a')
+    ok = _reproduce_many(prop, [[cur]], v, hashseed, iot, small, scratch, workers)[0]
+    tried += 1
     if not ok:
         # needs the batch history before it: regenerate the earlier plans of this batch from the seed
         nr = PLAN[tier][prop][1]
         wctx = worker_like_ctx(prop, ctx, seed, v['batch'])
         for idx in range(v['batch'] * nr, v['run']):
             history.append({'plan': callsim.gen_plan(prop, derive_seed(seed, prop, idx), tier, wctx), 'recorded': None})
-        ok, _ = _reproduces(prop, history + [cur], v, hashseed, iot, ctx_file, scratch)
+        ok = _reproduce_many(prop, [history + [cur]], v, hashseed, iot, ctx_file, scratch, workers)[0]
         tried += 1
         if not ok:
             return history + [cur], {'minimised': False, 'reproduced': False, 'candidates': tried}
-        # ddmin over the history
+        # halve the history while it still reproduces (all halves/quarters of a round in parallel)
         n = 2
         while history and tried < budget:
             chunk = max(1, len(history) // n)
-            reduced = False
-            for i in range(0, len(history), chunk):
-                cand = history[:i] + history[i + chunk:]
-                tried += 1
-                ok, _ = _reproduces(prop, cand + [cur], v, hashseed, iot, ctx_file, scratch)
-                if ok:
-                    history = cand
-                    n = max(2, n - 1)
-                    reduced = True
-                    break
-                if tried >= budget:
-                    break
-            if not reduced:
+            cands = [history[:i] + history[i + chunk:] for i in range(0, len(history), chunk)]
+            oks = _reproduce_many(prop, [c + [cur] for c in cands], v, hashseed, iot, ctx_file, scratch, workers)
+            tried += len(cands)
+            hit = [c for c, o in zip(cands, oks) if o]
+            if hit:
+                history = min(hit, key=len)
+                n = max(2, n - 1)
+            else:
                 if chunk == 1:
                     break
                 n = min(len(history), n * 2)
-    changed = True
-    while changed and tried < budget:
-        changed = False
-        for plan, rec, ncid, nidx in _shrink_plan_candidates(cur['plan'], cur['recorded'], cid, op_idx):
-            tried += 1
-            cand = {'plan': plan, 'recorded': rec}
-            ok, _ = _reproduces(prop, history + [cand], v, hashseed, iot, ctx_file, scratch)
-            if ok:
-                cur, cid, op_idx = cand, ncid, nidx
-                changed = True
-                break
-            if tried >= budget:
-                break
-    ok, last = _reproduces(prop, history + [cur], v, hashseed, iot, ctx_file, scratch)
-    return history + [cur], {'minimised': True, 'reproduced': ok, 'candidates': tried + 1, 'last': last}
+    rounds = 0
+    while rounds < 6:
+        rounds += 1
+        cands = list(_shrink_plan_candidates(cur['plan'], cur['recorded'], cid, op_idx))[:32]
+        if not cands:
+            break
+        small = small_ctx_file(ctx, history + [{'plan': c[0]} for c in cands] + [cur], scratch, 'r%d' % rounds)
+        oks = _reproduce_many(prop, [history + [{'plan': c[0], 'recorded': c[1]}] for c in cands], v, hashseed, iot, small, scratch, workers)
+        tried += len(cands)
+        pick = next((c for c, o in zip(cands, oks) if o), None)
+        if pick is None:
+            break
+        cur, cid, op_idx = {'plan': pick[0], 'recorded': pick[1]}, pick[2], pick[3]
+    small = small_ctx_file(ctx, history + [cur], scratch, 'z')
+    ok = _reproduce_many(prop, [history + [cur]], v, hashseed, iot, small, scratch, workers)[0]
+    return history + [cur], {'minimised': True, 'reproduced': ok, 'candidates': tried + 1, 'rounds': rounds}
 
 
 def worker_like_ctx(prop, ctx, seed, batch):
@@ -318,7 +337,7 @@ def worker_like_ctx(prop, ctx, seed, batch):
 
 
 def write_replay(prop, seed, n, doc):
-    d = os.path.join(VERIF_DIR, 'replays')
+    d = os.environ.get('VERIF_REPLAY_DIR') or os.path.join(VERIF_DIR, 'replays')
     os.makedirs(d, exist_ok=True)
     path = os.path.join(d, '%s-%d-%d.json' % (prop, seed, n))
     with open(path, 'w', encoding='utf-8') as f:
@@ -354,9 +373,9 @@ def run_check(prop, tier, seed, workers, batches=None, runs=None, do_minimise=Tr
         for rep in reports:
             for v in rep['violations']:
                 found.setdefault(v['class'], v)
-        for vclass, v in sorted(found.items())[:3]:
-            if do_minimise:
-                runs_min, minfo = minimise(prop, v, seed, tier, ctx, ctx_file, scratch)
+        for n_class, (vclass, v) in enumerate(sorted(found.items())[:3]):
+            if do_minimise and n_class == 0:      # one fully minimised replay; further classes are reported as found
+                runs_min, minfo = minimise(prop, v, seed, tier, ctx, ctx_file, scratch, workers=workers)
             else:
                 runs_min, minfo = [{'plan': v['plan'], 'recorded': v['recorded']}], {'minimised': False}
             doc = {'check': prop, 'engine': 'callsim', 'mode': 'runs', 'seed': seed, 'tier': tier, 'class': vclass,
